@@ -258,15 +258,22 @@ impl Number {
             // -i32::MIN is not an i32: fall back to a float as the other rational operations do
             Number::Rational(num) => match num.numer().checked_abs() {
                 Some(numer) => Rational32::new_raw(numer, *num.denom()).into(),
+                // an integer carried as a rational has an exact absolute value
+                None if num.is_integer() => (*num.numer() as i64).unsigned_abs().into(),
                 None => (*num.numer() as f64 / *num.denom() as f64).abs().into(),
             },
         }
     }
 
     pub fn modulo(&self, rhs: &Number) -> Option<Number> {
+        let zero = Number::Fixnum(0);
         match self % rhs {
-            Some(num) => &(&num + rhs) % rhs,
-            None => None,
+            // The remainder takes the sign of the dividend and the modulus that of the
+            // divisor. The divisor is added only where the signs differ, so that the sum
+            // is smaller in magnitude than both: adding it always, to reduce once more,
+            // leaves the range of the representation and comes back inexact.
+            Some(num) if num != zero && (num < zero) != (*rhs < zero) => Some(&num + rhs),
+            other => other,
         }
     }
 
@@ -321,6 +328,8 @@ impl Number {
             },
             Number::Float(num) => num.powf(exp as f64).into(),
             Number::BigInt(lhs) => lhs.pow(exp).into(),
+            // an integer carried as a rational is raised as an integer
+            Number::Rational(num) if num.is_integer() => Number::Fixnum(*num.numer() as i64).pow(exp),
             Number::Rational(num) => {
                 let exact = match (num.numer().checked_pow(exp), num.denom().checked_pow(exp)) {
                     (Some(numer), Some(denom)) => Some(Rational32::new_raw(numer, denom)),
